@@ -211,7 +211,7 @@ ODD = ['bad-utf8-header', 'bad-utf8-query', 'dup-header', 'chunked-body',
        'no-query', 'huge-header', 'odd-accept-encoding', 'lowercase-method',
        'no-host', 'origin-and-cors-request-headers', 'encoded-path',
        'client-gone-before-body', 'upgrade-header-without-connection',
-       'upgrade-header-connection-close']
+       'upgrade-header-connection-close', 'non-latin1-reflected-header']
 
 
 def run_odd(rec, case):
@@ -305,6 +305,18 @@ def run_odd(rec, case):
             headers['Upgrade'] = 'websocket'
             if odd.endswith('close'):
                 headers['Connection'] = 'close'
+        elif odd == 'non-latin1-reflected-header':
+            # a header the server reflects into its answer (CORS request
+            # headers), valid UTF-8 but outside ISO-8859-1
+            raw = 'x-caf\u00e9, x-\u20ac-\u4e2d'.encode('utf-8')
+            headers['Origin'] = 'http://srv.test'
+            if srv == 'T':
+                # (PEP 3333: header bytes arrive as latin-1 native strings)
+                headers['Access-Control-Request-Headers'] = \
+                    raw.decode('latin-1')
+            else:
+                kw['scope_extra_headers'] = [
+                    (b'access-control-request-headers', raw)]
         elif odd == 'encoded-path':
             kw['path'] = '/engine.io/%2e%2e/x'
         if srv == 'A' and 'scope_extra_headers' in kw:
@@ -472,8 +484,12 @@ def run_compete(rec, case):
             sim.quiesce()
         wsA.send('2probe')
         sim.quiesce()
-        if b_when == 'after-probe':
+        if b_when in ('after-probe', 'probes-early'):
             wsB, tB = sim.upgrade_ws(h)
+            sim.quiesce()
+        if b_when == 'probes-early':
+            # the late-comer is probed too BEFORE the first socket completes
+            wsB.send('2probe')
             sim.quiesce()
         wsA.send('5')
         sim.quiesce()
@@ -482,12 +498,17 @@ def run_compete(rec, case):
         elif b_act == 'close':
             wsB.close()
         else:
-            wsB.send('2probe')
+            if b_when != 'probes-early':
+                wsB.send('2probe')
             sim.quiesce()
             if b_act == 'probe-then-wrong':
                 wsB.send('4x')
             elif b_act == 'probe-then-close':
                 wsB.close()
+            elif b_act == 'probe-then-upgrade':
+                # the late-comer goes through the whole handshake although
+                # the session has been upgraded by the first socket meanwhile
+                wsB.send('5')
         sim.quiesce()
         n0 = len(sim.events)
         sim.app_call('send', h.sid, 'after')
@@ -500,6 +521,28 @@ def run_compete(rec, case):
               'failed the first socket carries %r, events %r' % (
                   [f['frame'] for f in wsA.frames],
                   [(e['ev'], e.get('data')) for e in sim.events[n0:]]))
+        # ... and the session is still a WebSocket session: a polling read
+        # naming it is refused and takes nothing from the socket's queue
+        rec.count('compete_transport_after')
+        if sim.transport_of(h.sid) != 'websocket':
+            V('established-socket-disturbed', 'after the competing attempt '
+              'failed transport() reports %r for the session living on the '
+              'first WebSocket' % (sim.transport_of(h.sid),))
+        sim.app_call('send', h.sid, 'after2')
+        pr = sim.poll(h)
+        sim.quiesce()
+        if not pr.done or pr.code != 400 or \
+                '4after2' not in [f['frame'] for f in wsA.frames]:
+            V('established-socket-disturbed', 'a polling read naming the '
+              'upgraded session after the competing attempt failed: done=%r '
+              'status=%r body=%r; first socket carries %r' % (
+                  pr.done, pr.status, (pr.body or b'')[:60],
+                  [f['frame'] for f in wsA.frames][-3:]))
+        if [f for f in wsB.frames if isinstance(f['frame'], str) and
+                f['frame'].startswith('4')]:
+            V('established-socket-disturbed', 'messages of the session were '
+              'delivered on the competing socket: %r' % (
+                  [f['frame'] for f in wsB.frames],))
         if a_end == 'client-close':
             wsA.close()
         elif a_end == 'disconnect':
@@ -751,9 +794,9 @@ def plan(tier, seed):
             for when in ('before', 'during'):
                 cases.append({'slowdisc': [srv, call, when]})
     for srv in SRV[:2]:
-        for b_when in ('before-probe', 'after-probe'):
+        for b_when in ('before-probe', 'after-probe', 'probes-early'):
             for b_act in ('wrong-first', 'close', 'probe-then-wrong',
-                          'probe-then-close'):
+                          'probe-then-close', 'probe-then-upgrade'):
                 for a_end in ('client-close', 'disconnect', 'silence'):
                     cases.append({'compete': [srv, b_when, b_act, a_end]})
     for iodd in range(len(ODD)):
